@@ -1,7 +1,9 @@
 package props
 
 import (
+	"go/token"
 	"regexp"
+	"sort"
 	"strings"
 
 	"golang.org/x/tools/go/ssa"
@@ -567,7 +569,7 @@ func c07gCopyBack(c *eng.Ctx) {
 			for n := range want {
 				names = append(names, n)
 			}
-			sortStrings(names)
+			sort.Strings(names)
 			for _, n := range names {
 				site := "auth." + n + " = te." + want[n] + " on every path to registration"
 				if len(copies[n]) == 0 {
